@@ -222,7 +222,7 @@ func (runInfo *runInfoStruct) callExpr() {
 			if verifOn {
 				verifSpawn(runInfo)
 			}
-			go f.CallSlice(args)
+			goRecovered(func() { f.CallSlice(args) })
 			return
 		}
 		rvs = f.CallSlice(args)
@@ -231,7 +231,7 @@ func (runInfo *runInfoStruct) callExpr() {
 			if verifOn {
 				verifSpawn(runInfo)
 			}
-			go f.Call(args)
+			goRecovered(func() { f.Call(args) })
 			return
 		}
 		rvs = f.Call(args)
@@ -312,17 +312,20 @@ func (runInfo *runInfoStruct) callVMFunctionDirect(f reflect.Value, callExpr *as
 		if verifOn {
 			verifSpawn(runInfo)
 		}
+		// the goroutine outlives this call: give it its own copies
+		ctx := runInfo.ctx
+		a := append([]reflect.Value(nil), args...)
 		switch {
 		case fn0 != nil:
-			go fn0(runInfo.ctx)
+			goRecovered(func() { fn0(ctx) })
 		case fn1 != nil:
-			go fn1(runInfo.ctx, args[0])
+			goRecovered(func() { fn1(ctx, a[0]) })
 		case fn2 != nil:
-			go fn2(runInfo.ctx, args[0], args[1])
+			goRecovered(func() { fn2(ctx, a[0], a[1]) })
 		case fn3 != nil:
-			go fn3(runInfo.ctx, args[0], args[1], args[2])
+			goRecovered(func() { fn3(ctx, a[0], a[1], a[2]) })
 		case fn4 != nil:
-			go fn4(runInfo.ctx, args[0], args[1], args[2], args[3])
+			goRecovered(func() { fn4(ctx, a[0], a[1], a[2], a[3]) })
 		}
 		return true
 	}
@@ -353,6 +356,17 @@ func (runInfo *runInfoStruct) callVMFunctionDirect(f reflect.Value, callExpr *as
 
 	runInfo.rv = rv
 	return true
+}
+
+// goRecovered starts fn on a new goroutine for a go statement. A panic raised
+// there (for example by a Go function that rejects its arguments) must not
+// take the embedding program down, so it is recovered and dropped, like the
+// result of the call.
+func goRecovered(fn func()) {
+	go func() {
+		defer func() { recover() }()
+		fn()
+	}()
 }
 
 // checkIfRunVMFunction checking the number and types of the reflect.Type.
